@@ -800,9 +800,31 @@ def gen_special_books(r: random.Random) -> Dict[str, Any]:
     return w.scenario()
 
 
+def gen_big_index(r: random.Random) -> Dict[str, Any]:
+    """an index over dozens of components (a real index has hundreds) in front of an arbitrage agent."""
+    w = World(r)
+    n = r.choice([75, 77, 91, 93, 99, 105, 117, 123, 60, 130])
+    for i in range(n):
+        d = {"class": "TapMarket", "tickSize": 1.0, "marketPrice": 300.0, "outstandingShares": 1000}
+        w.cfg[f"M{i}"] = d
+        w.cfg["simulation"]["markets"].append(f"M{i}")
+        w.markets.append({"name": f"M{i}", "tick": 1.0, "p0": 300.0, "index": False})
+    comps = [f"M{i}" for i in range(n)]
+    w.add_index("IDX", 1.0, 300.0 + r.choice([5.0, -5.0, 2.0]), comps)
+    w.add_scripted("SA", 1, False, markets=["M0", "IDX"])
+    w.add_group("ARB", {"class": "ProbeArb", "numAgents": 1, "markets": comps + ["IDX"], "cashAmount": 10 ** 9,
+                        "assetVolume": 1000, "orderVolume": r.choice([1, 2, 3, 10]), "orderThresholdPrice": 1.0})
+    w.add_session(2, True, r.random() < 0.5, max_normal=1, max_hft=1, rate=1.0)
+    w.scripts[w.scripted[0]["name"]] = [[{"k": "limit", "m": 0, "side": "b", "px": {"mode": "abs", "v": 290.0}, "vol": 1}],
+                                        [{"k": "limit", "m": 0, "side": "s", "px": {"mode": "abs", "v": 310.0}, "vol": 1}], [], []]
+    return w.scenario()
+
+
 def gen_agents(r: random.Random, profile: str = "agents") -> Dict[str, Any]:
     if r.random() < 0.03:
         return gen_special_books(r)
+    if r.random() < 0.012:
+        return gen_big_index(r)
     w = World(r)
     with_index = r.random() < 0.6
     if with_index:
